@@ -133,7 +133,12 @@ func (s *Heatmap) WriteHeader(colNames ...string) (colCount int) {
 			break
 		}
 
-		sb.WriteString(underlineHeaderChar(name, 0))
+		if nameLen == 0 { // an empty key still takes one cell, so the scan always advances
+			sb.WriteRune(delim)
+			nameLen = 1
+		} else {
+			sb.WriteString(underlineHeaderChar(name, 0))
+		}
 		i += nameLen
 	}
 
